@@ -118,6 +118,7 @@ NULL_encode_der(const asn_TYPE_descriptor_t *td, const void *ptr, int tag_mode,
 	if(erval.encoded == -1) {
 		erval.failed_type = td;
 		erval.structure_ptr = ptr;
+		return erval;
 	}
 
 	ASN__ENCODED_OK(erval);
